@@ -55,12 +55,18 @@ func vfC19I64(v int64) []int {
 
 func vfC19ToI64(a []int) int64 { return int64(binary.BigEndian.Uint64(vfC19Bytes(a))) }
 
+// vfC19Str builds the Go string for a sequence of character codes: a code below 0x110000 is a
+// Unicode code point (UTF-8 encoded), 0x110000+b is the single byte b standing alone (invalid UTF-8).
 func vfC19Str(codes []int) string {
-	r := make([]rune, len(codes))
-	for i, c := range codes {
-		r[i] = rune(c)
+	b := make([]byte, 0, len(codes)+8)
+	for _, c := range codes {
+		if c >= 0x110000 {
+			b = append(b, byte(c-0x110000))
+		} else {
+			b = append(b, string(rune(c))...)
+		}
 	}
-	return string(r)
+	return string(b)
 }
 
 func vfC19Codes(s string) []int {
@@ -275,23 +281,45 @@ func TestVfC19Cases(t *testing.T) {
 	fmt.Printf("VFSUMMARY {\"results\":%d,\"vectors\":%d}\n", res.n, vec.n)
 }
 
-var vfC19Alphabet = []rune("0123456789abcdefABCDEF0123456789abcdefABCDEF--gG/:@` {}xXzZ_+\x00é０‐")
+// character codes for the random strings (see vfC19Str): hex digits (weighted), hyphen, near misses,
+// control and white-space characters, and for every hex digit / hyphen c the colliding code points
+// c+0x80, c+0x100, c+0x400, c+0x600, c+0x1E00, c+0xFEE0, c+0xFF00, c+0x10000, c+0x1F600 and the lone
+// byte c+0x80 (invalid UTF-8)
+var vfC19Alphabet = func() []int {
+	hex := []int{}
+	for _, c := range "0123456789abcdefABCDEF-" {
+		hex = append(hex, int(c))
+	}
+	a := append([]int{}, hex...)
+	a = append(a, hex...)
+	for _, c := range "gG/:@` {}xXzZ_+.," {
+		a = append(a, int(c))
+	}
+	a = append(a, 0, 8, 9, 10, 11, 12, 13, 27, 127, 133, 160, 0x2028, 0x3000, 0xFEFF, 233, 0x2010, 0x2212, 0xFFFD, 0x10FFFF)
+	for _, c := range hex {
+		for _, off := range []int{0x80, 0x100, 0x400, 0x600, 0x630, 0x1E00, 0xFEE0, 0xFF00, 0x10000, 0x1F600} {
+			a = append(a, c+off)
+		}
+		a = append(a, 0x110000+c+0x80)
+	}
+	return append(a, 0x110000+0x80, 0x110000+0xBF, 0x110000+0xC0, 0x110000+0xFE, 0x110000+0xFF)
+}()
 
 func vfC19RandString(rng *rand.Rand) []int {
 	b := make([]byte, 16)
 	rng.Read(b)
 	u, _ := UUIDFromBytes(b)
-	var s []rune
+	var s []int
 	switch rng.Intn(4) {
 	case 0:
-		s = []rune(u.String())
+		s = vfC19Codes(u.String())
 	case 1:
-		s = []rune(fmt.Sprintf("%x", b))
+		s = vfC19Codes(fmt.Sprintf("%x", b))
 	case 2:
-		s = []rune(fmt.Sprintf("%X", b))
+		s = vfC19Codes(fmt.Sprintf("%X", b))
 	default: // hyphen after random bytes
 		for i, x := range b {
-			s = append(s, []rune(fmt.Sprintf("%02x", x))...)
+			s = append(s, vfC19Codes(fmt.Sprintf("%02x", x))...)
 			if i < 15 && rng.Intn(4) == 0 {
 				s = append(s, '-')
 			}
@@ -302,16 +330,17 @@ func vfC19RandString(rng *rand.Rand) []int {
 			s[i] -= 32
 		}
 	}
+	pick := func() int { return vfC19Alphabet[rng.Intn(len(vfC19Alphabet))] }
 	for n := rng.Intn(3); n > 0; n-- { // mutations
-		switch rng.Intn(4) {
-		case 0:
+		switch rng.Intn(5) {
+		case 0, 1: // replace one character (keeps the length: a colliding character in a digit position)
 			if len(s) > 0 {
-				s[rng.Intn(len(s))] = vfC19Alphabet[rng.Intn(len(vfC19Alphabet))]
+				s[rng.Intn(len(s))] = pick()
 			}
-		case 1:
-			p := rng.Intn(len(s) + 1)
-			s = append(s[:p], append([]rune{vfC19Alphabet[rng.Intn(len(vfC19Alphabet))]}, s[p:]...)...)
 		case 2:
+			p := rng.Intn(len(s) + 1)
+			s = append(s[:p], append([]int{pick()}, s[p:]...)...)
+		case 3:
 			if len(s) > 0 {
 				p := rng.Intn(len(s))
 				s = append(s[:p], s[p+1:]...)
@@ -322,7 +351,7 @@ func vfC19RandString(rng *rand.Rand) []int {
 			}
 		}
 	}
-	return vfC19Codes(string(s))
+	return append([]int{}, s...)
 }
 
 // a time inside the 60-bit timestamp range (1582-10-15 .. 5236-03-31), biased to the present
